@@ -111,6 +111,20 @@ const depthBudget = 100_000
 // Emit records a callback event.
 func (p *Proc) Emit(ev string) {
 	p.Events = append(p.Events, ev)
+	if tracing {
+		traceAdd(p.ID, ev)
+	}
+}
+
+// Execution trace digest (self-test of determinism only): every Point, callback event, exit and
+// stream write of every simulated process, in global order.
+var (
+	tracing bool
+	trace   uint64
+)
+
+func traceAdd(proc int, what string) {
+	trace = mix(trace, uint64(proc), fnv64(what))
 }
 
 // Observed returns the events that happened before the process stopped: whatever deferred
@@ -186,6 +200,9 @@ func exitSeam(code int) {
 		panic(fmt.Sprintf("harness: exit seam called outside a simulated process (code %d)", code))
 	}
 	p.ExitCalls++
+	if tracing {
+		traceAdd(p.ID, "exit")
+	}
 	if !p.exited {
 		p.exited = true
 		p.exitIdx = len(p.Events)
@@ -203,8 +220,16 @@ func pointHook(site string) {
 		return
 	}
 	p.Steps++
+	// How many "fsm.fill" Points a run passes depends on Go's map iteration order when a Set fails
+	// (which container is filled first), the one source of nondeterminism the simulator cannot own:
+	// that site counts as a step but is neither traced nor a scheduling point, so that schedules and
+	// traces stay a function of the tape alone.
+	mapOrdered := site == "fsm.fill"
 	if s := theSched; s == nil || !s.free {
 		siteCounts[site]++
+		if tracing && !mapOrdered {
+			traceAdd(p.ID, site)
+		}
 	}
 	if p.Steps > p.StepBudget {
 		panic(&budgetSentinel{"steps"})
@@ -214,7 +239,7 @@ func pointHook(site string) {
 			panic(&budgetSentinel{"depth"})
 		}
 	}
-	if s := theSched; s != nil {
+	if s := theSched; s != nil && !mapOrdered {
 		s.yield(p, site)
 	}
 }
